@@ -21,11 +21,14 @@ On every run of the check, `run(chk, arim, rng, quick)`
 
 Every disagreement is reported with chk.violation("tie:<key>", ..., failing_input_found=False).
 
+Three classes of inputs that used to be excluded are generated and compared since the repair of Model/ConfLoad.v:
+ * probe_key values that are not registered in arim._probes.probes (KeyError; unhashable keys: TypeError) - the registry is the
+   parameter `registered` of the model, instantiated by py_registered (the keys of the real registry are checked against it);
+ * time vectors with one sample ([t0] gives Time(t0, nan, 1) = the model's StepNaN t0) and with none (IndexError = TimeRejected);
+ * BRAIN arrays in which corner vectors el_x1 .. el_z2 have length 1 while the centres have n elements (numpy broadcasts the
+   squeezed scalar; the model's bcast), and empty arrays (n = 0: a probe without elements).
+
 Inputs on which the model is NOT tied (it does not describe the library there; see the final report of the tie):
- * probe_key values that are not registered in arim._probes.probes (the registry is not in the model: KeyError vs Ok);
- * time vectors with fewer than 2 samples given to Time.from_vect directly ([t0] gives Time(t0, nan, 1); time_of_vect = None);
- * BRAIN arrays in which one of the six corner vectors el_x1 .. el_z2 has length 1 while the others have n >= 2 elements
-   (numpy broadcasts the squeezed scalar: accepted by _load_probe, rejected by load_probe's same_len);
  * the `metadata` mapping of conf["probe"] is filled in place by Probe.make_matrix_probe (probe_type, numx, numy, pitch_x,
    pitch_y - pitch_x = nan when numx = 1): a side effect on the configuration that the model does not describe; the calls are
    recorded with the arguments as they were when the call was made, and every other entry of the configuration is checked to be
@@ -48,13 +51,14 @@ CORR = {
     "matattr": "material_of_kwargs (py_material_from_conf ..) vs the attributes of the core.Material returned by native.material_from_conf",
     "exam": "py_examination_object_from_conf / block_in_immersion_from_conf / block_in_contact_from_conf (wall_from_conf, exam_dispatch) "
             "vs arim.io.native.examination_object_from_conf / block_in_immersion_from_conf / block_in_contact_from_conf",
-    "probe": "py_probe_from_conf (probe_source, probe_location_ops) vs arim.io.native.probe_from_conf (source call, probe motions in order)",
+    "probe": "py_probe_from_conf (probe_source, registry_lookup with py_registered, probe_location_ops) vs arim.io.native.probe_from_conf "
+             "(source call, probe motions in order)",
     "probe-prefix": "py_probe_from_conf / probe_source vs arim.io.native.probe_from_conf (calls made before a constructor / motion raised)",
     "grid": "py_grid_from_conf vs arim.io.native.grid_from_conf (keyword arguments reaching geometry.Grid, in order)",
     "axes": "py_grid_axes_from_conf (unpack_pixel_size, grid_axes) vs arim.io.native.grid_from_conf + geometry.Grid.__init__ (xvect, yvect, zvect)",
     "frame": "py_frame_from_conf (frame_source, get_not_none, time_of_vect, shift_time, time_samples) vs arim.io.native.frame_from_conf",
-    "time": "time_of_vect (time_init) vs arim.core.Time.from_vect",
-    "bprobe": "load_probe (el_dim) vs arim.io.brain._load_probe",
+    "time": "time_of_vect (time_init; TimeAxis / StepNaN / TimeRejected) vs arim.core.Time.from_vect",
+    "bprobe": "load_probe (el_dims, bcast, el_dim) vs arim.io.brain._load_probe",
     "bframe": "load_frame (view_scipy / view_hdf5, load_timetraces, load_indices, time_of_vect) vs arim.io.brain._load_frame / load_expdata",
 }
 
@@ -235,8 +239,9 @@ Definition frame_ok (p : frame_plan py) (o : frame_obs) : bool :=
      | None => false
      | Some tv =>
          match time_of_vect tv with
-         | None => false
-         | Some t0 =>
+         | TimeRejected => false
+         | StepNaN _ => false
+         | TimeAxis t0 =>
              match fp_delay p with
              | None => time_ok t0 tm smp
              | Some d => match numQ d with
@@ -252,6 +257,9 @@ Definition bframe_obs := option (list (list Z) * (Q * Q * Z) * list Z * list Z).
 Definition rows_of (T : arr2 Z) : list (list Z) :=
   map (fun i => map (fun j => aget Z 0%Z T i j) (seq 0 (a_cols T))) (seq 0 (a_rows T)).
 
+(* what Time.from_vect did: a Time with a numeric step, a Time whose step is nan (start, len, samples), an exception *)
+Inductive otime := OTAxis (tm : Q * Q * Z) | OTNaN (start : Q) (n : Z) (samples : list Q) | OTNone.
+
 Inductive tcase :=
 | CAtt (c : cfg py) (o : ores (att_call py))
 | CMat (c : cfg py) (o : ores (items (marg py)))
@@ -263,7 +271,7 @@ Inductive tcase :=
 | CGrid (conf : items (cfg py)) (o : ores (items (cfg py)))
 | CAxes (conf : items (cfg py)) (o : ores (axobs * axobs * axobs))
 | CFrame (conf : items (cfg py)) (up ue : bool) (o : ores frame_obs)
-| CTime (t : list Q) (o : option (Q * Q * Z))
+| CTime (t : list Q) (o : otime)
 | CBProbe (v : list (list Q)) (freq : Q) (o : bprobe_obs)
 | CBFrame (view rows cols : Z) (forder : bool) (mem : list Z) (time : list Q) (tx rx : list Z) (o : bframe_obs).
 
@@ -279,7 +287,7 @@ Definition check_case (c : tcase) : bool :=
   | CMatAttr c o => check_matattr c o
   | CExam w conf o => res_match exam_eqb (exam_model w conf) o
   | CProbe conf ap o => res_match plan_eqb (py_probe_from_conf conf ap) o
-  | CProbeSrcB conf src => match probe_source py conf with Ok s => src_eqb s src | Err _ => false end
+  | CProbeSrcB conf src => match probe_source py py_registered conf with Ok s => src_eqb s src | Err _ => false end
   | CProbeOpsB conf src ops =>
       match py_probe_from_conf conf true with
       | Ok p => src_eqb (pp_src p) src && prefix_ops ops (pp_ops p)
@@ -290,8 +298,9 @@ Definition check_case (c : tcase) : bool :=
   | CFrame conf up ue o => res_match frame_ok (py_frame_from_conf ld conf up ue) o
   | CTime t o =>
       match time_of_vect t, o with
-      | None, None => true
-      | Some a, Some b => tm_eqb a b
+      | TimeRejected, OTNone => true
+      | TimeAxis a, OTAxis b => tm_eqb a b
+      | StepNaN s, OTNaN s' n smp => Qeq_bool s s' && Z.eqb n 1 && list_eqb Qeq_bool [s] smp
       | _, _ => false
       end
   | CBProbe v f o =>
@@ -750,6 +759,11 @@ def pick(rng, xs):
 
 ABSENT = object()
 BAD_LEAVES = [5, "abc", None, [1], 2.5, True, []]
+# values of conf["probe_key"] that are not keys of arim._probes.probes: KeyError; the unhashable ones: TypeError
+UNREGISTERED_KEYS = ["zzz", "", "IMA_50_MHZ_128_1D", "ima_50_MHz_128_1d ", "ima_50_MHz_128", "ima_50_MHz_128_1d.", 5, 0, None, 2.5, True,
+                     ["ima_50_MHz_128_1d"], [], {"a": 1}, {}, {"ima_50_MHz_128_1d": 1}]
+# the keys Model/ConfLoad.py_probe_keys lists (py_registered)
+MODEL_PROBE_KEYS = ["ima_50_MHz_128_1d", "ima_50_MHz_64_1d", "ima_25_MHz_64_1d", "sonaxis_150_MHz_110_1d", "ima_100_MHz_128_1d"]
 
 
 def gen_att(rng):
@@ -956,6 +970,10 @@ def time_vector(rng, kind):
     n = int(rng.integers(2, 8))
     t0 = f8(rng, -16, 64)
     step = float(rng.integers(1, 64)) / 16.0
+    if kind == "one":                  # Time(t0, nan, 1)
+        return [t0]
+    if kind == "empty":                # IndexError
+        return []
     if kind == "linear":
         t = [t0 + i * step for i in range(n)]
     elif kind == "constant":
@@ -1024,7 +1042,8 @@ class Tie:
         self.chk.count(tie_C20=f"{kind}:{sub}")
         import re
         m = re.search(r"\(OErr (\d+)", lit)
-        outcome = ("raised " + ERRNAME.get(int(m.group(1)), "?")) if m else "rejected" if lit.endswith(" None") else "accepted"
+        outcome = (("raised " + ERRNAME.get(int(m.group(1)), "?")) if m else "rejected" if lit.endswith((" None", " OTNone"))
+                   else "accepted with step nan" if "(OTNaN " in lit else "accepted")
         self.chk.count(tie_C20_library_outcome=f"{kind}:{outcome}")
         self.cases.append((kind, lit, replay, model))
 
@@ -1159,7 +1178,7 @@ class Tie:
                 ev = [e for e in R.events if e[0] == "make_matrix_probe"][-1]
                 src = R.enc_src(("matrix", ev[1], ev[2]))
                 return self.add("probe-prefix", sub + ":source raised", f"CProbeSrcB {ci} {src}",
-                                dict(repl, library_answer=self.lib_answer(out, src)), f"probe_source py {ci}")
+                                dict(repl, library_answer=self.lib_answer(out, src)), f"probe_source py py_registered {ci}")
             if len(R.psrc) != 1 or not apply:
                 return self.skip("probe", sub, name)
             pid = list(R.psrc)[-1]
@@ -1216,9 +1235,12 @@ class Tie:
         out = attempt(self.core.Time.from_vect, np.array(t, dtype=float))
         if out[0] == "ok":
             tm = out[1]
-            obs = "(Some " + cpair(cQ(float(tm.start)), cQ(float(tm.step)), cZ(len(tm))) + ")"
+            if float(tm.step) != float(tm.step):      # Time(start, nan, num)
+                obs = f"(OTNaN {cQ(float(tm.start))} {cZ(len(tm))} {qlist(np.asarray(tm.samples).tolist())})"
+            else:
+                obs = "(OTAxis " + cpair(cQ(float(tm.start)), cQ(float(tm.step)), cZ(len(tm))) + ")"
         else:
-            obs = "None"
+            obs = "OTNone"
         self.add("time", sub, f"CTime {qlist(t)} {obs}",
                  {"fn": "core.Time.from_vect", "input": t, "library_answer": self.lib_answer(out, obs)}, f"time_of_vect {qlist(t)}")
 
@@ -1409,7 +1431,10 @@ class Tie:
                       ({"probe": PR, "probe_key": "ima_50_MHz_128_1d"}, False), ({"probe": PR, "probe_key": "ima_50_MHz_128_1d"}, True),
                       ({"probe_key": "ima_50_MHz_128_1d", "probe_location": {"ref_element": "mean"}}, True),
                       ({"probe": {"numx": 1}, "probe_location": {}}, True), ({"probe": 5, "probe_location": {}}, True),
-                      ({"probe_location": {}}, True)):
+                      ({"probe_location": {}}, True),
+                      ({"probe_key": "zzz"}, False), ({"probe_key": 5}, False), ({"probe_key": None, "probe_location": {}}, True),
+                      ({"probe_key": ["ima_50_MHz_128_1d"]}, False), ({"probe_key": {"a": 1}}, False), ({"probe_key": "zzz", "probe": PR}, False),
+                      ({"probe_key": "sonaxis_150_MHz_110_1d"}, False), ({"probe_key": "zzz", "probe_location": {"standoff": 1.0}}, True)):
             for sp in ("positional", "keyword", "default"):
                 self.probe_case(c(p), ap, "fixed", sp)
         G = {"xmin": F(0), "xmax": F(16), "zmin": F(0), "zmax": F(32)}
@@ -1432,12 +1457,19 @@ class Tie:
                              ({"frame": {"dataset_name": "examples", "dataset_item": "unknown.mat"}}, False, False),
                              ({"frame": {"dataset_name": "examples"}}, False, False)):
             self.frame_case(c(conf), up, ue, "fixed")
-        for t in ([3.0, 2.0, 1.0], [3.0, 3.0, 3.0], [5.0, 5.5, 6.0], [1.0, 2.0], [0.0, 1.0, 2.0, 3.5]):
+        for t in ([3.0, 2.0, 1.0], [3.0, 3.0, 3.0], [5.0, 5.5, 6.0], [1.0, 2.0], [0.0, 1.0, 2.0, 3.5], [3.0], [-2.5], [0.0], []):
             self.time_case(t, "fixed")
         v = [[0.0, 1.0], [0.0, 0.0], [0.0, 0.0], [-0.25, 0.75], [-4.0, -4.0], [0.0, 0.0], [0.5, 1.5], [2.0, 2.0], [0.0, 0.0]]
+        x3, o3 = [0.0, 1.0, 2.0], [0.0, 0.0, 0.0]
         for rd in ("file", "hdf5"):
             self.bprobe_case(v, 5e6, rd, "fixed")
             self.bprobe_case([[x[0]] for x in v], 5e6, rd, "fixed one element")
+            # a corner vector of one value is broadcast; empty arrays; a centre vector of one value; a corner vector of two among three
+            self.bprobe_case([x3, o3, o3, [0.5], [-4.0] * 3, o3, [0.5, 1.5, 2.5], [2.0] * 3, o3], 5e6, rd, "fixed broadcast")
+            self.bprobe_case([x3, o3, o3, [0.5], [-4.0], [0.0], [1.0], [2.0], [0.0]], 5e6, rd, "fixed broadcast")
+            self.bprobe_case([[], [], [], [], [1.0], [], [], [], [2.0]], 5e6, rd, "fixed empty")
+            self.bprobe_case([x3, [0.0], o3, x3, o3, o3, x3, o3, o3], 1e6, rd, "fixed one centre")
+            self.bprobe_case([x3, o3, o3, [0.0, 1.0], o3, o3, x3, o3, o3], 1e6, rd, "fixed length")
         mem = list(range(12))
         for view in (1, 2):
             self.bframe_case(view, 4, 3, False, mem, [5.0, 5.5, 6.0], [1, 1, 2, 2], [1, 2, 1, 2], "fixed")
@@ -1467,11 +1499,14 @@ class Tie:
         rng = self.rng
         e, nel = [], None
         if fault == "both":
-            e += [("probe", gen_probe_kw(rng)), ("probe_key", pick(rng, self.keys))]
+            key = pick(rng, self.keys) if rng.random() < 0.7 else copy.deepcopy(pick(rng, UNREGISTERED_KEYS))
+            e += [("probe", gen_probe_kw(rng)), ("probe_key", key)]
         elif fault == "neither":
             pass
         elif fault in ("leaf", "missing", "unknown", "beyond"):
             e.append(("probe", gen_probe_kw(rng, fault)))
+        elif fault == "unregistered" or rng.random() < 0.07:
+            e.append(("probe_key", copy.deepcopy(pick(rng, UNREGISTERED_KEYS))))
         elif rng.random() < 0.25:
             e.append(("probe_key", pick(rng, self.keys)))
             nel = 32
@@ -1483,7 +1518,7 @@ class Tie:
 
     def random_probe(self, fault=None):
         rng = self.rng
-        srcf = fault if fault in ("both", "neither", "leaf", "missing", "unknown", "beyond") else None
+        srcf = fault if fault in ("both", "neither", "leaf", "missing", "unknown", "beyond", "unregistered") else None
         e, nel = self.probe_entries(srcf)
         if fault == "no-location":
             pass
@@ -1542,7 +1577,7 @@ class Tie:
             frame = shuffled(rng, f)
         e = [] if fault == "noframe" else [("frame", frame)]
         up, ue = bool(rng.random() < 0.6), bool(rng.random() < 0.6)
-        pf = pick(rng, ["both", "neither", "leaf", "missing", "unknown"]) if fault == "probe-fault" else None
+        pf = pick(rng, ["both", "neither", "leaf", "missing", "unknown", "unregistered"]) if fault == "probe-fault" else None
         pe, nel = self.probe_entries(pf)
         if rng.random() < 0.85 or fault == "probe-fault":
             e += pe
@@ -1564,7 +1599,7 @@ class Tie:
 
     def random_bprobe(self, fault=None):
         rng = self.rng
-        n = 1 if fault == "one" else int(rng.integers(2, 7))
+        n = 1 if fault == "one" else 0 if fault == "empty" else int(rng.integers(2, 7))
         pitch = f8(rng, 0.25, 4)
         xc = [(i - (n - 1) / 2.0) * pitch for i in range(n)] if rng.random() < 0.7 else [f8(rng, -16, 16) for _ in range(n)]
         yc = [f8(rng, -4, 4)] * n if rng.random() < 0.7 else [f8(rng, -4, 4) for _ in range(n)]
@@ -1573,11 +1608,18 @@ class Tie:
         def corner(c):       # either corner may be the farther one, on either side
             return [x + pick(rng, [-1.0, 1.0]) * f8(rng, 0, 4) for x in c]
         vecs = [xc, yc, zc, corner(xc), corner(yc), corner(zc), corner(xc), corner(yc), corner(zc)]
-        if fault == "length":
-            # NB a corner vector of length 1 is broadcast by numpy (accepted) while the model rejects it: not generated
+        if fault == "length":           # any vector, any other length (a CORNER vector of length 1 is broadcast: accepted)
             j = int(rng.integers(0, 9))
-            m = pick(rng, [k for k in (2, 3, 4, 5, 6, 7) if k != n]) if j >= 3 else pick(rng, [k for k in (1, 2, 3, 4, 5, 6, 7) if k != n])
+            m = pick(rng, [k for k in (0, 1, 2, 3, 4, 5, 6, 7) if k != n])
             vecs[j] = [f8(rng, -4, 4) for _ in range(m)]
+            fault = "length:" + ("centre" if j < 3 else "corner") + (":1" if m == 1 else ":0" if m == 0 else "")
+        elif fault in ("broadcast", "empty"):   # 1 .. 6 corner vectors of ONE value
+            for j in rng.permutation(6)[:int(rng.integers(1 if fault == "broadcast" else 0, 7))]:
+                vecs[3 + int(j)] = [f8(rng, -4, 4)]
+        elif fault == "broadcast-centre":       # a centre vector of ONE value: rejected
+            vecs[int(rng.integers(0, 3))] = [f8(rng, -4, 4)]
+            for j in rng.permutation(6)[:int(rng.integers(0, 4))]:
+                vecs[3 + int(j)] = [f8(rng, -4, 4)]
         self.bprobe_case(vecs, float(rng.integers(1, 21)) * 0.5e6, pick(rng, ["file", "hdf5"]), fault or "valid")
 
     def capture(self, N):
@@ -1660,7 +1702,7 @@ class Tie:
                 self.random_exam(fault)
         for _ in range(110 * m):
             self.random_probe()
-        for fault in ("both", "neither", "leaf", "missing", "unknown", "beyond", "no-location", "location-leaf", "beyond-ref",
+        for fault in ("both", "neither", "leaf", "missing", "unknown", "beyond", "unregistered", "no-location", "location-leaf", "beyond-ref",
                       "beyond-angle", "beyond-angle-none", "beyond-standoff"):
             for _ in range(8 * m):
                 self.random_probe(fault)
@@ -1674,13 +1716,14 @@ class Tie:
                       "probe-fault", "no-location", "location-leaf", "exam-fault", "exam-none"):
             for _ in range(7 * m):
                 self.random_frame(fault)
-        for kind, k in (("linear", 25), ("constant", 5), ("decreasing", 10), ("jitter-ok", 15), ("boundary", 15), ("nonlinear", 20)):
+        for kind, k in (("linear", 25), ("constant", 5), ("decreasing", 10), ("jitter-ok", 15), ("boundary", 15), ("nonlinear", 20),
+                        ("one", 8), ("empty", 2)):
             for _ in range(k * m):
                 self.time_case(time_vector(rng, kind), kind)
         for _ in range(25 * m):
             self.random_bprobe()
-        for fault in ("one", "length"):
-            for _ in range(8 * m):
+        for fault, k in (("one", 8), ("length", 16), ("broadcast", 16), ("broadcast-centre", 6), ("empty", 4)):
+            for _ in range(k * m):
                 self.random_bprobe(fault)
         for _ in range(50 * m):
             self.random_bframe()
@@ -1737,6 +1780,9 @@ def run(chk, arim, rng, quick):
                 if set(t.R.datasets.DATASETS) != expected:
                     t.bad("datasets-keys", "arim.datasets.DATASETS no longer has the single key 'examples' (py_known_dataset)",
                           {"keys": list(t.R.datasets.DATASETS)}, "frame")
+                if list(t.keys) != MODEL_PROBE_KEYS:
+                    t.bad("probes-keys", "the keys of arim._probes.probes are no longer the ones listed in Model/ConfLoad.py_probe_keys "
+                          "(py_registered)", {"keys": list(t.keys), "model": MODEL_PROBE_KEYS}, "probe")
                 t.R.install()
                 try:
                     t.generate()
